@@ -6,32 +6,35 @@ import json, os, subprocess, sys, time
 def sh(cmd, **kw):
     return subprocess.run(cmd, shell=True, stdout=subprocess.PIPE, stderr=subprocess.STDOUT, text=True, **kw)
 
+REPO = os.environ.get("VERIF_SUBJECT", "/repo")
+VERIF = os.path.dirname(os.path.dirname(os.path.abspath(__file__)))
+
 def main():
     patch = os.path.abspath(sys.argv[1])
     ids = sys.argv[2:] or ["C%02d" % i for i in range(1, 18)]
-    st = sh("git -C /repo status --porcelain")
+    st = sh("git -C %s status --porcelain" % REPO)
     if st.stdout.strip():
-        print("refusing: /repo is not clean:\n" + st.stdout)
+        print("refusing: subject repo is not clean:\n" + st.stdout)
         sys.exit(2)
-    r = sh("git -C /repo apply --whitespace=nowarn %s" % patch)
+    r = sh("git -C %s apply --whitespace=nowarn %s" % (REPO, patch))
     if r.returncode != 0:
         print("patch does not apply:\n" + r.stdout)
         sys.exit(2)
     result = {"patch": patch, "checks": {}}
     try:
-        t = sh("cd /repo && cargo test --offline 2>&1 | grep -E 'test result|error(\\[|:)' | head -5")
+        t = sh("cd %s && cargo test --offline 2>&1 | grep -a -E 'test result|error(\\[|:)' | head -5" % REPO)
         result["repo_tests"] = t.stdout.strip()
         print("repo tests:", t.stdout.strip())
         for i in ids:
             t0 = time.time()
-            c = sh("cd /verif && ./check %s quick" % i)
+            c = sh("cd %s && ./check %s quick" % (VERIF, i))
             lines = [l for l in c.stdout.splitlines() if l.startswith(("VIOLATION", "MACHINERY", "KNOWN"))]
             sig = [l.strip() for l in c.stdout.splitlines() if l.strip().startswith("signature:")]
             verdict = {0: "pass", 1: "VIOLATION", 2: "MACHINERY-ERROR"}.get(c.returncode, str(c.returncode))
             result["checks"][i] = {"verdict": verdict, "wall_s": round(time.time() - t0, 1), "first": (sig[0][:300] if sig else (lines[0][:300] if lines else ""))}
             print("%s: %s %s" % (i, verdict, (sig[0][:220] if sig else (lines[0][:220] if lines else ""))))
     finally:
-        sh("git -C /repo checkout -- . && git -C /repo clean -fdq -- src")
+        sh("git -C %s checkout -- . && git -C %s clean -fdq -- src" % (REPO, REPO))
         # evidence files were rewritten by runs on a modified tree: they are regenerated below
     print(json.dumps(result))
     out = os.environ.get("SEEDTEST_OUT")
